@@ -49,6 +49,8 @@ func checkC11(w *World, r *Report) {
 	c11Overrides(w, r, sites)
 	c11RemoteInputs(w, r, sites)
 	c11KeyInputs(w, r, sites)
+	c11ReloadableInKey(w, r, ci)
+	c11NoLossyURL(w, r, sites)
 }
 
 // ---- C11.1 -------------------------------------------------------------------------------------
@@ -849,4 +851,178 @@ func c11KeyInputs(w *World, r *Report, sites []*cachingSite) {
 func isCtxLike(w *World, t types.Type) bool {
 	s := t.String()
 	return s == "context.Context" || strings.HasSuffix(s, "internal/heimdall.Context")
+}
+
+// c11ReloadableInKey (C11.6): an object that takes part in a cache key through its Hash() and
+// whose state can be replaced at run time (it has a reload entry point: OnChanged) must derive
+// that hash from the replaceable state - otherwise results computed with the old state (a token
+// signed with the rotated-out key) stay valid under the same key.
+func c11ReloadableInKey(w *World, r *Report, ci *types.Named) {
+	ri := r.Rule("C11.6", 1, "the Hash() of a reloadable object that enters a cache key reads state that the reload replaces (the signer's hash covers the loaded key, so cached tokens die with a key rotation)")
+	n := 0
+	seen := map[*types.Named]bool{}
+	for _, fn := range w.Funcs {
+		if w.isMockFn(fn) || fn.Name() != "Hash" || fn.Signature.Recv() == nil || fn.Parent() != nil {
+			continue
+		}
+		t := derefNamed(fn.Signature.Recv().Type())
+		if t == nil || seen[t] {
+			continue
+		}
+		reload := w.Method(t, "OnChanged")
+		if reload == nil || reload.Blocks == nil {
+			continue
+		}
+		seen[t] = true
+		// fields the reload path stores into (methods of t reachable from OnChanged)
+		written := map[string]bool{}
+		reach, _ := w.CG().Reachable([]*ssa.Function{reload}, func(f *ssa.Function) bool { return !w.inModule(f) })
+		reach[reload] = nil
+		for g := range reach {
+			if g.Signature.Recv() == nil || derefNamed(g.Signature.Recv().Type()) != t {
+				continue
+			}
+			eachInstr(g, func(in ssa.Instruction) {
+				if st, ok := in.(*ssa.Store); ok {
+					if fa, ok := st.Addr.(*ssa.FieldAddr); ok && derefNamed(fa.X.Type()) == t {
+						if f := fieldOf(fa.X.Type(), fa.Field); f != nil && !isMutexType(f.Type()) {
+							written[f.Name()] = true
+						}
+					}
+				}
+			})
+		}
+		if len(written) == 0 {
+			continue
+		}
+		// only where the cached value itself is produced by this object from the reloadable state:
+		// some cache.Set stores a value that depends on a call to a method of t reading such a field
+		// (a signer's token). An object that merely takes part in producing the *request* whose
+		// response is cached (endpoint auth strategies) does not make that response stale.
+		produces := false
+		reader := map[*ssa.Function]bool{}
+		for _, g := range w.Funcs {
+			if g.Signature.Recv() == nil || derefNamed(g.Signature.Recv().Type()) != t || g == fn || w.isMockFn(g) {
+				continue
+			}
+			eachInstr(g, func(in ssa.Instruction) {
+				if fa, ok := in.(*ssa.FieldAddr); ok && derefNamed(fa.X.Type()) == t {
+					if f := fieldOf(fa.X.Type(), fa.Field); f != nil && written[f.Name()] {
+						reader[g] = true
+					}
+				}
+			})
+		}
+		// yields(c, d): a non-error result of call c is computed from the result of a reader method
+		var yields func(x ssa.Value, depth int) bool
+		yields = func(x ssa.Value, depth int) bool {
+			c, _ := resultOfCall(x)
+			if c == nil {
+				if cc, ok := x.(*ssa.Call); ok {
+					c = cc
+				}
+			}
+			if c == nil || depth > 2 {
+				return false
+			}
+			var callees []*ssa.Function
+			if c.Common().IsInvoke() {
+				callees = w.resolveInvoke(c.Common())
+			} else if f := c.Common().StaticCallee(); f != nil {
+				callees = []*ssa.Function{f}
+			}
+			for _, f := range callees {
+				if reader[f] {
+					return true
+				}
+				if !w.inModule(f) || f.Blocks == nil {
+					continue
+				}
+				for _, ret := range returnsOf(f) {
+					for _, rv := range ret.Results {
+						if isErrorType(rv.Type()) {
+							continue
+						}
+						if dependsOn(w, rv, func(y ssa.Value) bool { return yields(y, depth+1) }) {
+							return true
+						}
+					}
+				}
+			}
+			return false
+		}
+		for _, sc := range cacheCalls(w, ci, "Set") {
+			if dependsOn(w, sc.Common().Args[2], func(x ssa.Value) bool { return yields(x, 0) }) {
+				produces = true
+			}
+		}
+		if !produces {
+			continue
+		}
+		n++
+		r.Analysed(w.FnName(fn))
+		reads := false
+		eachInstr(fn, func(in ssa.Instruction) {
+			if fa, ok := in.(*ssa.FieldAddr); ok && derefNamed(fa.X.Type()) == t {
+				if f := fieldOf(fa.X.Type(), fa.Field); f != nil && written[f.Name()] {
+					reads = true
+				}
+			}
+		})
+		var ws []string
+		for k := range written {
+			ws = append(ws, k)
+		}
+		sort.Strings(ws)
+		r.Ob(ri, w.FnName(fn)+"|covers-reloadable-state", fn.Pos(), reads,
+			fmt.Sprintf("Hash() reads none of the fields the reload replaces (%s): a cache key built from it does not change when the state is reloaded, so results produced with the old state keep being served", strings.Join(ws, ", ")))
+	}
+	if n == 0 {
+		r.Undecided(ri, "no reloadable type with a Hash() method found")
+	}
+}
+
+// c11NoLossyURL (C11.7): a key function must not fold distinct resources into one key: case
+// folding is harmless for scheme and host, not for a whole URL, a path or a query.
+func c11NoLossyURL(w *World, r *Report, sites []*cachingSite) {
+	ri := r.Rule("C11.7", 3, "no cache key function applies a case-folding or trimming normaliser to a whole URL, a path or a query (distinct resources would share one entry)")
+	seen := map[*ssa.Function]bool{}
+	for _, s := range sites {
+		for _, kf := range s.KeyFns {
+			if seen[kf] {
+				continue
+			}
+			seen[kf] = true
+			r.Analysed(w.FnName(kf))
+			ok, msg := true, ""
+			for _, f := range withClosures(kf) {
+				for _, ci := range callsIn(f) {
+					c, isCall := ci.(*ssa.Call)
+					if !isCall {
+						continue
+					}
+					switch callName(c.Common()) {
+					case "strings.ToLower", "strings.ToUpper", "strings.ToTitle", "strings.TrimSpace", "strings.Trim", "strings.TrimRight", "strings.TrimLeft", "strings.TrimSuffix", "strings.TrimPrefix":
+					default:
+						continue
+					}
+					if dependsOn(w, c.Common().Args[0], func(x ssa.Value) bool {
+						switch y := x.(type) {
+						case *ssa.Call:
+							n := callName(y.Common())
+							return strings.HasSuffix(n, "url.URL.String") || strings.HasSuffix(n, "url.URL.RequestURI") || strings.HasSuffix(n, "url.URL.EscapedPath")
+						case *ssa.FieldAddr:
+							if fl := fieldOf(y.X.Type(), y.Field); fl != nil && fl.Pkg() != nil && fl.Pkg().Path() == "net/url" {
+								return fl.Name() == "Path" || fl.Name() == "RawPath" || fl.Name() == "RawQuery" || fl.Name() == "Fragment"
+							}
+						}
+						return false
+					}) {
+						ok, msg = false, "the key is built from a "+callName(c.Common())+" of a URL, path or query at "+w.Pos(c.Pos())+": resources that differ only in what the normaliser removes share one cache entry"
+					}
+				}
+			}
+			r.Ob(ri, w.FnName(kf)+"|no-lossy-url-normalisation", kf.Pos(), ok, msg)
+		}
+	}
 }
